@@ -25,6 +25,10 @@ def step (s : StructState) (line : String) : StructState × String :=
       | none => (s, "err:E_VALUE"))
     | none => (s, "bad-op")
   | ["unwatchall", k] => (s.unwatchAll k, "ok")
+  | ["load", h] =>           -- set_status_block: the block is replaced wholesale, nobody is notified
+    match unhex h with
+    | some b => ({ s with block := b }, s!"ok {checksum b}")
+    | none => (s, "bad-op")
   | ["patch", off, h] =>
     match off.toNat?, unhex h with
     | some o, some seg =>
